@@ -412,6 +412,10 @@ def _run(case):
     }
 
 
+def _run_opt(case):
+    return None if case is None else _run(case)
+
+
 def _fault_points(log):
     """Distinct (role, label, ordinal) of a recorded log, in first-occurrence order, x error variants."""
     seen = []
@@ -717,7 +721,28 @@ def run(ctx):
     ctx.log(f"main space {len(space)} cases; {len(fshapes)} shapes for fault enumeration")
     main_cases = [_mk_case(*c) for c in space]
     rec_cases = [_mk_case(*c, shims=True) for c in fshapes]
-    out = common.pmap(_run, main_cases + rec_cases, ctx.jobs, chunk=1, init=_init, seed=ctx.seed)
+    # pmap shards round-robin (item k -> worker k mod jobs).  The few sleeping cases cost seconds
+    # each: they go first, one per worker, and that worker's next slots are left empty instead
+    items = main_cases + rec_cases
+    heavy = [i for i, c in enumerate(items) if any(k.endswith("_sleep") for k in c["stages"])]
+    if 0 < len(heavy) < ctx.jobs and not ctx.thorough:
+        light = [i for i in range(len(items)) if i not in set(heavy)]
+        layout, li, rnd = [], 0, 0
+        while li < len(light):
+            for slot in range(ctx.jobs):
+                if slot < len(heavy) and rnd <= 14:
+                    layout.append(heavy[slot] if rnd == 0 else None)
+                elif li < len(light):
+                    layout.append(light[li])
+                    li += 1
+            rnd += 1
+    else:
+        layout = list(range(len(items)))
+    got = common.pmap(_run_opt, [None if i is None else items[i] for i in layout], ctx.jobs, chunk=1, init=_init, seed=ctx.seed)
+    out = [None] * len(items)
+    for i, r in zip(layout, got):
+        if i is not None:
+            out[i] = r
     main_res, rec_res = out[: len(main_cases)], out[len(main_cases) :]
     ctx.log("fault-free runs done")
 
